@@ -489,6 +489,7 @@ Proof.
   intros r H. subst r. cbn [req_ok] in H.
   apply andb_true_iff in H as [H Hp]. apply andb_true_iff in H as [H Hd].
   apply andb_true_iff in H as [H Hm0]. apply andb_true_iff in H as [_ Hml].
+  unfold zmem0 in Hm0.
   unfold script_post, fields_of, run, enc_port.
   destruct dst as [n | b | b]; cbn [host_ok5] in Hd.
   - apply andb_true_iff in Hd as [Hd Hutf].
@@ -503,3 +504,190 @@ Proof.
     cbn. rewrite !Hm0. cbn. rewrite !Hlen. cbn. rewrite !port_join.
     finish_script.
 Qed.
+
+Lemma script_ok r :
+  req_ok r = true -> good sk0 (fields_of r) /\ script_post r (run sk0 (fields_of r)).
+Proof.
+  destruct r as [ip port user | x port user name | methods dst port].
+  - apply script_R4.
+  - apply script_R4a.
+  - apply script_R5.
+Qed.
+
+Lemma wires_fields_of r : wires (fields_of r) = encode r.
+Proof.
+  destruct r as [ip port user | x port user name | methods dst port]; [| | destruct dst];
+    unfold wires, fields_of, encode, enc_port; cbn;
+    rewrite ?app_nil_r, <- ?app_assoc; reflexivity.
+Qed.
+
+Lemma fields_of_short r : (length (fields_of r) < 16)%nat.
+Proof.
+  destruct r as [ip port user | x port user name | methods dst port]; [| | destruct dst]; cbn; lia.
+Qed.
+
+Lemma fields_of_pending r : pending (fields_of r) [].
+Proof.
+  destruct r as [ip port user | x port user name | methods dst port]; cbn;
+    eexists; (split; [| reflexivity]); discriminate.
+Qed.
+
+(* ---------------------------------------------------------------------------------------- *)
+(* 1. Functional correctness for every well-formed request, trailing data and chunking *)
+
+Theorem socks_parse_spec :
+  forall (fx : bool) (r : sreq) (tail : bytes) (chunks : list bytes),
+    req_ok r = true -> concat chunks = encode r ++ tail ->
+    let s := feed_all fx chunks in
+    k_req s = Some (target r) /\ k_out s = replies r /\ k_early s = tail /\
+    k_crash s = false /\ k_oof s = false /\ k_tr s = true /\ k_h s = HNone.
+Proof.
+  intros fx r tail chunks Hok Hc s.
+  destruct (script_ok r Hok) as (Hg & Hreq & Hout & Hearly & Hoof).
+  destruct (good_run _ _ Hg) as (Hh & Htr & Hcr).
+  assert (Hs : s = add_early (run sk0 (fields_of r)) tail).
+  { subst s. unfold feed_all. change sk0 with (set_buf sk0 []) at 1.
+    apply feed_good.
+    - exact Hg.
+    - reflexivity.
+    - apply fields_of_short.
+    - apply fields_of_pending.
+    - rewrite wires_fields_of. exact Hc. }
+  rewrite Hs. cbn [add_early k_req k_out k_early k_crash k_oof k_tr k_h].
+  rewrite Hearly. repeat split; assumption.
+Qed.
+
+(* the hypotheses are satisfiable, for each of the formats *)
+Example socks_parse_spec_nonvacuous :
+  req_ok (R4 [10; 0; 0; 1] 8080 [114; 111; 111; 116]) = true /\
+  req_ok (R4a 7 443 [] [101; 120; 46; 111; 114; 103]) = true /\
+  req_ok (R5 [2; 0] (HName [101; 120; 46; 111; 114; 103]) 443) = true /\
+  req_ok (R5 [0] (HV4 [127; 0; 0; 1]) 22) = true /\
+  req_ok (R5 [0] (HV6 [0; 0; 0; 0; 0; 0; 0; 0; 0; 0; 0; 0; 0; 0; 0; 1]) 22) = true.
+Proof. vm_compute. repeat split; reflexivity. Qed.
+
+(* ---------------------------------------------------------------------------------------- *)
+(* 2. / 5.  With the repair, no input makes an assertion fail; a closed forwarder never asked
+   for a connection. *)
+
+Definition clean (s : sk) : Prop :=
+  k_crash s = false /\ (k_tr s = true \/ k_h s = HNone) /\
+  (k_req s = None \/ (k_tr s = true /\ k_h s = HNone)).
+
+Lemma call_open_clean s d :
+  k_tr s = true -> k_crash s = false -> k_h s <> HNone -> k_req s = None ->
+  k_crash (call s d) = false /\
+  (k_req (call s d) = None \/ (k_tr (call s d) = true /\ k_h (call s d) = HNone)).
+Proof.
+  destruct s as [h need buf host port atyp tr out req early cr oo]. cbn.
+  intros -> -> Hh ->.
+  destruct h; try congruence; unfold call; cbn;
+    unfold sconnect, swrite, sclose, set_h, set_host, set_port, set_atyp, set_buf, crash; cbn;
+    case_ifs; cbn; auto.
+Qed.
+
+Lemma call_none s d : k_h s = HNone -> call s d = s.
+Proof. intros H. unfold call. rewrite H. reflexivity. Qed.
+
+Lemma handler_none_dec (h : handler) : {h = HNone} + {h <> HNone}.
+Proof. destruct h; (left; reflexivity) || (right; discriminate). Qed.
+
+Lemma callx_clean s d : clean s -> clean (callx true s d).
+Proof.
+  intros (Hc & Ht & Hr).
+  destruct (handler_none_dec (k_h s)) as [Hh | Hh].
+  - unfold callx. rewrite (call_none _ _ Hh). unfold fixup.
+    assert (E : true && k_tr s && negb (k_tr s) = false) by (destruct (k_tr s); reflexivity).
+    rewrite E. exact (conj Hc (conj Ht Hr)).
+  - destruct Ht as [Ht | Ht]; [| congruence].
+    destruct Hr as [Hr | [_ Hr]]; [| congruence].
+    destruct (call_open_clean s d Ht Hc Hh Hr) as (Hc' & Hr').
+    unfold callx, fixup. rewrite Ht. cbn [andb].
+    destruct (k_tr (call s d)) eqn:Ht'; cbn [negb].
+    + repeat split; auto. destruct Hr' as [Hr' | [_ Hr']]; auto.
+    + repeat split; cbn; auto.
+      destruct Hr' as [Hr' | [Hr' _]]; [auto | congruence].
+Qed.
+
+Lemma clean_set_buf s b : clean s -> clean (set_buf s b).
+Proof. intros H. exact H. Qed.
+
+Lemma clean_close s : is_none (k_h s) = false -> clean s -> clean (fixup true s (sclose s)).
+Proof.
+  intros Hn (Hc & Ht & Hr).
+  assert (Hr0 : k_req s = None).
+  { destruct Hr as [Hr | [_ Hr]]; [exact Hr | rewrite Hr in Hn; discriminate]. }
+  unfold fixup, sclose.
+  destruct (k_tr s) eqn:Htr; cbn.
+  - repeat split; cbn; auto.
+  - rewrite Htr. repeat split; auto.
+Qed.
+
+Lemma pump_clean : forall f s, clean s -> clean (fst (pump true f s)).
+Proof.
+  induction f as [|f IH]; intros s Hs.
+  - cbn [pump]. destruct (k_crash s); [exact Hs|]. destruct (is_none (k_h s)); exact Hs.
+  - rewrite pump_S. destruct (k_crash s); [exact Hs|].
+    destruct (is_none (k_h s)) eqn:Hn; [exact Hs|].
+    destruct (k_need s <? 0).
+    + destruct (find0 (k_buf s)) as [[d rest]|].
+      * apply IH. apply callx_clean. apply clean_set_buf. exact Hs.
+      * destruct (Z.of_nat (length (k_buf s)) >? 255); [apply clean_close; assumption | exact Hs].
+    + destruct (Z.of_nat (length (k_buf s)) >=? k_need s); [| exact Hs].
+      apply IH. apply callx_clean. apply clean_set_buf. exact Hs.
+Qed.
+
+Lemma data_received_clean s c : clean s -> clean (data_received true s c).
+Proof.
+  intros Hs. unfold data_received. destruct (is_none (k_h s)).
+  - destruct c; exact Hs.
+  - pose proof (pump_clean (pump_fuel (set_buf s (k_buf s ++ c))) (set_buf s (k_buf s ++ c))
+                           (clean_set_buf _ _ Hs)) as Hp.
+    destruct (pump true _ _) as [s' ft]. cbn [fst] in Hp.
+    destruct ft; [| exact Hp]. destruct (k_buf s'); exact Hp.
+Qed.
+
+Lemma feed_clean s c : clean s -> clean (feed true s c).
+Proof.
+  intros Hs. unfold feed. destruct (k_crash s || negb (k_tr s)); [exact Hs|].
+  apply data_received_clean. exact Hs.
+Qed.
+
+Lemma feed_all_clean : forall chunks, clean (feed_all true chunks).
+Proof.
+  intros chunks. unfold feed_all.
+  assert (H0 : clean sk0) by (unfold clean; cbn; auto).
+  revert H0. generalize sk0. induction chunks as [|c cs IH]; intros s Hs; [exact Hs|].
+  cbn [fold_left]. apply IH. apply feed_clean. exact Hs.
+Qed.
+
+Theorem socks_clean_fixed : forall chunks, k_crash (feed_all true chunks) = false.
+Proof. intros chunks. exact (proj1 (feed_all_clean chunks)). Qed.
+
+Theorem socks_closed_no_request_fixed :
+  forall chunks, let s := feed_all true chunks in k_tr s = false -> k_req s = None.
+Proof.
+  intros chunks s Ht. destruct (feed_all_clean chunks) as (_ & _ & [Hr | [Ht' _]]).
+  - exact Hr.
+  - fold s in Ht'. congruence.
+Qed.
+
+(* ---------------------------------------------------------------------------------------- *)
+(* 3. The code as it is: an assertion fails after a close inside the loop *)
+
+Theorem socks_clean_head_refuted : exists chunks, k_crash (feed_all false chunks) = true.
+Proof. exists [[5; 0]]. vm_compute. reflexivity. Qed.
+
+Example socks_clean_head_refuted_socks4 :
+  k_crash (feed_all false [[9; 9; 4; 1; 0; 80; 1; 2; 3; 4; 0]]) = true.
+Proof. vm_compute. reflexivity. Qed.
+
+Example socks_clean_fixed_same_inputs :
+  k_crash (feed_all true [[5; 0]]) = false /\
+  k_crash (feed_all true [[9; 9; 4; 1; 0; 80; 1; 2; 3; 4; 0]]) = false.
+Proof. vm_compute. split; reflexivity. Qed.
+
+Print Assumptions socks_parse_spec.
+Print Assumptions socks_clean_fixed.
+Print Assumptions socks_closed_no_request_fixed.
+Print Assumptions socks_clean_head_refuted.
